@@ -11,6 +11,10 @@ mod etree;
 mod prom;
 mod sched;
 mod rrdpsrv;
+mod alloc;
+
+#[global_allocator]
+static ALLOCATOR: alloc::Tracking = alloc::Tracking;
 
 use std::path::{Path, PathBuf};
 use std::process::{Command, Stdio};
